@@ -7,7 +7,12 @@
      solve_t_M ev before after d o t s                       the same call without the keywords (Solver.v, properties C02/C06)
      ready cfg a reset t v tr                                 "trace_t(t, ...) cannot fail": names known, t in the span, and the
                                                              period's Trace empty, or of the same width, or reset=True
-     shape_pres h                                             the user hook h keeps the set of series and their lengths *)
+     shape_pres h                                             the user hook h keeps the set of series and their lengths
+     traced_solve_all / traced_solve_period_all (TracerSolve.v)   SolverMixin.solve(start=, end=, trace=, reset=, ...) /
+                                                             solve_period(label, ...) on the tracer-extended instance, for any
+                                                             label type L and span lookup `locate`
+     solve_M / solve_period_M / run_periods (Solver/SolveAll.v)  the same without the keywords (reference model of C03/C05)
+     solve_targets                                            the positions solve() will visit ([] when it rejects its arguments) *)
 From Coq Require Import ZArith List Bool PrimFloat.
 Import ListNotations.
 Require Import PyBase Solver SolverFacts SolverF SolveAll Tracer TracerSolve TracerFacts TracerFacts2 TracerF TracerExamples.
